@@ -1,11 +1,11 @@
-\* quick: 2 replicas, 2 members, 4 API ops, per-actor FIFO delivery (superset of causal), duplicates, merges
+\* qsnap: 2 replicas, 1 member, 3 API ops, merges and one saved (stale) snapshot that anybody may merge later
 CONSTANTS
   NReps = 2
-  NMembers = 2
-  MaxOps = 4
+  NMembers = 1
+  MaxOps = 3
   Regime = "fifo"
   UseMerge = TRUE
-  UseSnap = FALSE
+  UseSnap = TRUE
   UseDup = FALSE
   DumpReset = FALSE
   CmdSet = {"add", "rm"}
